@@ -5,7 +5,7 @@ import ast
 
 import z3
 
-from .pyvals import (NONE, Exc, IntSeq, NoneVal, PyCache, PyCallable, PyConst, PyGen, PyKey, PyList, PyMap, PyObj, PyOpt, PyStrDict, PyStrSet,
+from .pyvals import (LCAT, NONE, Exc, IntSeq, NoneVal, PyCache, PyCallable, PyConst, PyGen, PyKey, PyList, PyLit, PyMap, PyObj, PyOpt, PyStrDict, PyStrSet,
                      PyTuple, StrSeq, Tok, TokSeq, Val, ValSeq, fresh, is_bool, is_int, is_seq, is_str, is_tok, is_val, is_z3,
                      tok_fields)
 from .pyvc import (Tr, Unsupported, dedent, eq, is_keyword, is_soft_keyword, join_lines, lex_lt, lift, str_isspace, str_lower,
@@ -164,11 +164,15 @@ class ExprMixin:
                             parts.extend(("one", i) for i in v.items)
                         elif is_seq(v):
                             parts.append(("seq", v))
+                        elif isinstance(v, PyConst) and v.name.startswith("opaque"):
+                            parts.append(("opaque", v))
                         else:
                             raise Unsupported("star of non-sequence")
                     else:
                         parts.append(("one", v))
-                if all(k == "one" for k, _ in parts):
+                if any(k == "opaque" for k, _ in parts):
+                    out.append((s, PyConst("opaque-list")))       # a list built from one the model does not look into
+                elif all(k == "one" for k, _ in parts):
                     out.append((s, PyList([p for _, p in parts])))
                 else:
                     sq = [p for k, p in parts if k == "seq"][0]
@@ -371,6 +375,9 @@ class ExprMixin:
                     return [(s, PyList(a.items + b.items))]
                 if is_seq(a) and is_seq(b) and a.sort() == b.sort():
                     return [(s, z3.Concat(a, b))]
+                if isinstance(a, PyLit) and isinstance(b, PyLit):
+                    self.safety(s, a.isbytes == b.isbytes, "operands of + are both str or both bytes (TypeError)", e)
+                    return [(s, PyLit(a.isbytes, LCAT(a.val, b.val)))]
                 return [(s, Exc("TypeError", e.lineno, "operands of + have mixed types"))]
             if isinstance(op, ast.Sub) and is_int(a) and is_int(b):
                 return [(s, a - b)]
@@ -445,6 +452,8 @@ class ExprMixin:
                 return z3.IntVal(self.token_enum[attr])
         if c.name == "sys" and attr == "version_info":
             return PyTuple([z3.IntVal(3), z3.IntVal(12)])
+        if c.name == "ast" and attr == "literal_eval":
+            return PyConst("ast.literal_eval")
         if c.name == "ast":
             return PyConst("ast." + attr)
         if c.name == "textwrap" and attr == "dedent":
